@@ -206,7 +206,7 @@ func runC19(c *CaseCtx) {
 		if !sameObs(final, refFinal) {
 			c.Violate("final-differs:"+firstDiffCall(final, refFinal), class, fmt.Sprintf("contents after reopen differ between %s (got) and %s (want):\n%s", cfg, refCfg, diffObs(final, refFinal)))
 		}
-		if len(c.res.Viol) >= 6 {
+		if c.Unexplained() >= 6 {
 			break
 		}
 	}
